@@ -6,11 +6,11 @@ import (
 	"verif/mc"
 )
 
-var paths = []string{"/a", "/b", "/d/a", "/d/b"}
+var paths = []string{"/a", "/d", "/d/a", "/d/b"}
 
 func Main() {
 	mc.Main("C21", "model_checking",
-		"explicit-state search (breadth first, replay from the empty store) over all histories of create/overwrite / update through a name (replace content, add chunk, chmod) / append / hard link (the Dir.Link request pair) / rename / delete (recursive x deleteData) on the names {/a,/b,/d/a,/d/b}, executed on the real FilerServer gRPC methods; link membership is tracked by a reference tree; distinct = (operation, flags, kind of source, kind of target, outcome, store changed)",
+		"explicit-state search (breadth first, replay from the empty store) over all histories of create/overwrite / update through a name (replace content, add chunk, chmod) / append / hard link (the Dir.Link request pair) / rename / delete (recursive x deleteData) on the paths {/a,/d,/d/a,/d/b}, executed on the real FilerServer gRPC methods; link membership is tracked by a reference tree; distinct = (operation, flags, kind of source, kind of target, outcome, store changed)",
 		func(r *mc.Run) {
 			fsys.Run(r, &fsys.Config{
 				ID: "C21",
@@ -18,9 +18,9 @@ func Main() {
 					"mkfile": true, "updrepl": true, "updadd": true, "chmod": true, "append": true, "del": true, "mv": true, "ln": true}},
 				Judge:       func(s *fsys.Step, acc *fsys.Acc) *fsys.Verdict { return fsys.JudgeC21(s) },
 				DepthQ:      4,
-				DepthT:      5,
+				DepthT:      6,
 				Unmerged:    2,
-				CrashBudget: 2,
+				CrashBudget: 1,
 				Assumptions: []string{"renames of a directory into its own subtree are not part of this alphabet (they never return; decided by C18)"},
 			})
 		})
